@@ -49,6 +49,8 @@ func (f *Unexport) Call(s *slip.Scope, args slip.List, depth int) slip.Object {
 		p.Unexport(string(ta))
 	case slip.String:
 		p.Unexport(string(ta))
+	case nil:
+		// the empty list of symbols
 	case slip.List:
 		for _, v := range ta {
 			switch tv := v.(type) {
